@@ -4,3 +4,4 @@ import Driver.Keys
 import Driver.Sign
 import Driver.Fetch
 import Driver.Codec
+import Driver.Conc
